@@ -139,7 +139,7 @@ def axiom_audit(pid, thms, modules):
     ok = r.returncode == 0
     # messages: "'Pm.foo' depends on axioms: [a, b]" or "'Pm.foo' does not depend on any axioms"
     for m in re.finditer(
-        r"'([^']+)' (does not depend on any axioms|depends on axioms: \[([^\]]*)\])", out, flags=re.S
+        r"^'([^\n]+?)' (does not depend on any axioms|depends on axioms: \[([^\]]*)\])", out, flags=re.S | re.M
     ):
         name = m.group(1)
         axs = [] if m.group(3) is None else [a.strip() for a in m.group(3).replace("\n", " ").split(",") if a.strip()]
